@@ -466,7 +466,14 @@ func queueFaults(c *vk.C, rng *rand.Rand, k int) {
 	kA, kB := rtp.Kinds[0], rtp.Kinds[1]
 	outcomes := []string{}
 
-	for i := 0; i < 14; i++ {
+	// the failure streak of item x: 14 failures, every third scenario 34 (well past a quarter of an hour of virtual time: a failing
+	// item is retried for as long as it fails, nothing gives up on it)
+	nFail := 14
+	if k%3 == 1 {
+		nFail = 34
+	}
+
+	for i := 0; i < nFail; i++ {
 		outcomes = append(outcomes, []string{"err", "panic"}[rng.IntN(2)])
 	}
 
@@ -534,7 +541,25 @@ func queueFaults(c *vk.C, rng *rand.Rand, k int) {
 		rtp.Quiesce(time.Duration(rng.IntN(4000)) * time.Millisecond)
 	}
 
-	rtp.Quiesce(70 * time.Minute) // streaks done: outcome index 14 ("ok") reached, the run hook is past its 40 failures
+	rtp.Quiesce(70 * time.Minute) // streaks done: outcome index nFail ("ok") reached, the run hook is past its 40 failures
+
+	// ... without any further notification for x: every retry so far was the queue's own doing
+	retried := 0
+
+	for _, wk := range w.Wakes() {
+		if wk.Probe == "FQ" && wk.Kind == "reconcile" && wk.Target == x {
+			retried++
+		}
+	}
+
+	if retried < nFail+1 {
+		c.Violation("failing-item-retry-abandoned", map[string]any{"scenario": k, "failures_planned": nFail, "reconciles_of_the_item_without_fresh_notification": retried,
+			"note": "the item kept failing and the queue stopped retrying it before it could succeed"})
+	}
+
+	if nFail > 14 {
+		c.Count("long_item_outages", 1)
+	}
 
 	// each further outcome needs a fresh notification for x (except the retries after err / requeue)
 	for i := 0; i < 12; i++ {
@@ -561,9 +586,9 @@ func queueFaults(c *vk.C, rng *rand.Rand, k int) {
 		gap := recs[i+1].AtMS - recs[i].EndMS
 
 		switch {
-		case recs[i].N < 14:
+		case recs[i].N < nFail:
 			gaps = append(gaps, gap)
-		case recs[i].N == 15:
+		case recs[i].N == nFail+1:
 			afterReset = gap
 		case strings.HasPrefix(recs[i].Fault, "requeue"):
 			// honoured unless a fresh notification arrived: the harness writes x only after 2 virtual minutes of quiet, so none did
